@@ -261,6 +261,12 @@ pub fn enabled(w: &World, cfg: &Cfg) -> Vec<Op> {
                             add(&mut v, Op::new(K::MTryReclaim, i, 0, a, 0));
                         }
                     }
+                    // put_bytes with counts for which len + cnt is not representable: must panic (a capacity request that overflows)
+                    for a in dedup_sorted(vec![usize::MAX, usize::MAX - l, usize::MAX - l + 1, ISIZE_MAX + 1, ISIZE_MAX - l + 1]) {
+                        if l.checked_add(a).map_or(true, |x| x > ISIZE_MAX) {
+                            add(&mut v, Op::new(K::MPutBytes, i, 0, a, 0));
+                        }
+                    }
                     add(&mut v, Op::new(K::MResize, i, 0, usize::MAX, 0));
                     add(&mut v, Op::new(K::MResize, i, 0, ISIZE_MAX + 1, 0));
                     add(&mut v, Op::new(K::MTruncate, i, 0, usize::MAX, 0));
